@@ -13,6 +13,7 @@ exception Fail of string * string
 let zi = z_of_int
 let iz = int_of_z
 let huge = zi (1 lsl 40)
+let z_neg = function Zneg _ -> true | _ -> false
 let split c s = String.split_on_char c s
 let ios = int_of_string
 let tl1 s = String.sub s 1 (String.length s - 1)
@@ -69,9 +70,9 @@ let split_bar toks =
 
 let pr_action (a : action) : string =
   match a.kind with
-  | KHalt d -> Printf.sprintf "h%d.%d.%d" (iz a.abyte) (iz d) (iz a.count)
-  | KClose -> Printf.sprintf "c%d.%d" (iz a.abyte) (iz a.count)
-  | KBw b -> Printf.sprintf "b%d.%d" (iz a.abyte) (iz b)
+  | KHalt d -> Printf.sprintf "h%s.%s.%s" (dec_of_z a.abyte) (dec_of_z d) (dec_of_z a.count)
+  | KClose -> Printf.sprintf "c%s.%s" (dec_of_z a.abyte) (dec_of_z a.count)
+  | KBw b -> Printf.sprintf "b%s.%s" (dec_of_z a.abyte) (dec_of_z b)
 
 (* canonical print of the active map, as harness dumpActions *)
 let pr_active (m : (char list * shape) list) (acts_of : char list -> action list option) : string =
@@ -81,8 +82,8 @@ let pr_active (m : (char list * shape) list) (acts_of : char list -> action list
       let key = hex_of_chars k in
       (string_of_chars k,
        key ^ "=" ^ String.concat ";" (List.map pr_action acts) ^ "/" ^
-       String.concat ";" (List.map (fun t -> Printf.sprintf "%d.%d.%d" (iz t.t_start) (iz t.t_end) (iz t.t_bw)) sh.sh_thr) ^
-       "/" ^ string_of_int (iz sh.sh_maxbw))) m in
+       String.concat ";" (List.map (fun t -> Printf.sprintf "%s.%s.%s" (dec_of_z t.t_start) (dec_of_z t.t_end) (dec_of_z t.t_bw)) sh.sh_thr) ^
+       "/" ^ dec_of_z sh.sh_maxbw)) m in
   let items = List.sort (fun (a, _) (b, _) -> compare a b) items in
   "M" ^ String.concat "," (List.map snd items)
 
@@ -154,7 +155,7 @@ let prepass (validated : (char list * shape) list option) (regtoks : string list
                 if not (ok_close sh.sh_acts rs hl !data !del !closed) then
                   raise (Fail ("close_at_k", Printf.sprintf "rs=%d hl=%d written=%d delivered=%d closed=%b first_close=%s"
                                  (iz rs) (iz hl) (List.length !data) (List.length !del) !closed
-                                 (match first_close sh.sh_acts rs with Some k -> string_of_int (iz k) | None -> "-")));
+                                 (match first_close sh.sh_acts rs with Some k -> dec_of_z k | None -> "-")));
                 if not (ok_halts sh.sh_acts rs hl (zi (List.length !del)) !gaps) then
                   raise (Fail ("halt_sleeps", "a halt whose offset was crossed shows a shorter pause than configured")))
          | _ -> ())
@@ -191,7 +192,7 @@ let judge_unit ins outs : verdict =
          if not (ok_close r.r_acts r.r_rs r.r_hl r.data r.delivered r.closed) then
            raise (Fail ("close_at_k", Printf.sprintf "rs=%d hl=%d written=%d delivered=%d closed=%b first_close=%s"
                           (iz r.r_rs) (iz r.r_hl) (List.length r.data) (List.length r.delivered) r.closed
-                          (match first_close r.r_acts r.r_rs with Some k -> string_of_int (iz k) | None -> "-")));
+                          (match first_close r.r_acts r.r_rs with Some k -> dec_of_z k | None -> "-")));
          if not (ok_halts r.r_acts r.r_rs r.r_hl (zi (List.length r.delivered)) r.gaps) then
            raise (Fail ("halt_sleeps", "a halt whose offset was crossed shows a shorter pause than configured"))
      | _ -> ());
@@ -226,7 +227,7 @@ let judge_unit ins outs : verdict =
                   List.iter (function SetBw b -> c.caps <- (rg, b) :: List.remove_assoc rg c.caps | _ -> ()) evs;
                   c.st <- Some s; c.regex <- (if s.shaping then Some rg else None);
                   let capv = if s.shaping then iz (List.assoc rg c.caps) else -1 in
-                  let na = match s.next with Some (i, b) -> Printf.sprintf "n%d.%d" (int_of_nat i) (iz b) | None -> "n-" in
+                  let na = match s.next with Some (i, b) -> Printf.sprintf "n%d.%s" (int_of_nat i) (dec_of_z b) | None -> "n-" in
                   let want = Printf.sprintf "o%d:%d:%s" (if s.shaping then 1 else 0) capv na in
                   if want <> o then raise (Dis ("set-context want=" ^ want ^ " got=" ^ o));
                   c.resp <- Some { data = []; delivered = []; closed = false; gaps = []; r_acts = acts; r_rs = rs; r_hl = hl;
@@ -469,12 +470,12 @@ let judge_integration ins outs : verdict =
   let (cfgt, rest) = split_bar ins in
   let p = kvs rest in
   match outs with
-  | [s; rx; m; hs; hl; _eof; el; body; got] ->
+  | [s; rx; m; hs; hl; _eof; el; crt; body; got] ->
       let code = ios (String.sub s 2 (String.length s - 2)) in
       let (cfgo, regtoks) = parse_cfg cfgt (tl1 (tl1 rx)) in
+      if accepted_wrongly cfgo (zi code) then raise (Fail ("validate_rejects", "invalid configuration accepted"));
       let validated = match cfgo with Some c -> validate c | None -> None in
       (match validated, code with
-       | None, 200 -> raise (Fail ("validate_rejects", "invalid configuration accepted"))
        | Some _, 200 | None, 400 -> ()
        | _ -> raise (Dis "status"));
       let active = match validated with Some shs -> build_map shs | None -> [] in
@@ -482,7 +483,6 @@ let judge_integration ins outs : verdict =
       let mbits = tl1 m in
       let matching = List.filteri (fun i _ -> i < String.length mbits && mbits.[i] = '1') regtoks in
       let matching = List.sort_uniq compare matching in
-      let rs = ios (List.assoc "rs" p) in
       let hl = ios (tl1 (tl1 hl)) in
       let delivered = chars_of_hex got in
       let body = chars_of_hex (tl1 body) in
@@ -490,35 +490,50 @@ let judge_integration ins outs : verdict =
       let head = List.filteri (fun i _ -> i < hl) delivered in
       let data = head @ body in
       let status = ios (tl1 (tl1 hs)) in
-      if status <> (if rs >= 0 then 206 else 200) then raise (Dis "origin-status");
-      let rs' = zi (if rs >= 0 then rs else 0) in
+      (* the range start: GetRangeStart on the status and Content-Range the origin sent *)
+      let cr = chars_of_hex (tl1 (tl1 crt)) in
+      let rs_impl = range_start (zi status) false cr in
+      let rs_rfc = range_start_rfc (zi status) false cr in
       let short = List.length delivered < List.length data in
       if not (ok_prefix data delivered short) then
         raise (Fail ("bytes_prefix", Printf.sprintf "written=%d delivered=%d: the client did not receive the written bytes" (List.length data) (List.length delivered)));
       (match matching with
        | [] ->
-           if short then raise (Fail ("only_matching", "a response whose URL matches no shape was cut"));
+           if not (ok_unshaped data delivered short) then raise (Fail ("only_matching", "a response whose URL matches no shape was cut"));
            VOk false
        | [rg] ->
            let rgc = chars_of_hex rg in
            let sh = List.assoc rgc active in
-           if short && first_close sh.sh_acts rs' = None then
-             raise (Fail ("bytes_prefix", Printf.sprintf "no close action applies but the client received only %d of %d bytes" (List.length delivered) (List.length data)));
-           if not (ok_close sh.sh_acts rs' (zi hl) data delivered short) then
-             raise (Fail ("close_at_k", Printf.sprintf "rs=%d hl=%d written=%d delivered=%d first_close=%s"
-                            rs hl (List.length data) (List.length delivered)
-                            (match first_close sh.sh_acts rs' with Some k -> string_of_int (iz k) | None -> "-")));
-           let (s, evs0) = open_ctx true sh.sh_acts sh.sh_thr true rs' (zi hl) (Some lat) O in
-           let ((_, evs), r) = write (fun _ -> (huge, huge)) s data in
-           let total = iz (delays_before_last_byte evs) in
-           let el = ios (tl1 (tl1 el)) in
-           if not (ok_total_delay evs (zi el)) then
-             raise (Fail ("halt_delay_total", Printf.sprintf "response took %dus, configured halts and latency add up to %dus" el total));
-           if emitted evs <> delivered then raise (Dis "delivered-bytes-differ-from-model");
-           VOk (List.exists is_action_ev (evs0 @ evs))
+           (* a valid Content-Range with an unknown total ("a-b/*") that the code does not read: known finding K2 *)
+           if z_neg rs_impl && not (z_neg rs_rfc) then begin
+             if not (ok_close sh.sh_acts rs_rfc (zi hl) data delivered short) then
+               raise (Fail ("range_start_unknown_total",
+                            Printf.sprintf "Content-Range %s: the range start is %s but the matching response was not shaped from it (delivered %d of %d)"
+                              (string_of_chars cr) (dec_of_z rs_rfc) (List.length delivered) (List.length data)))
+           end;
+           if z_neg rs_impl then begin
+             (* no usable range start: the response is not shaped (C18_invalid_range_unshaped) *)
+             if not (ok_unshaped data delivered short) then raise (Dis "unshaped-response-was-cut");
+             VOk false
+           end else begin
+             let rs' = rs_impl in
+             if short && first_close sh.sh_acts rs' = None then
+               raise (Fail ("bytes_prefix", Printf.sprintf "no close action applies but the client received only %d of %d bytes" (List.length delivered) (List.length data)));
+             if not (ok_close sh.sh_acts rs' (zi hl) data delivered short) then
+               raise (Fail ("close_at_k", Printf.sprintf "rs=%s hl=%d written=%d delivered=%d first_close=%s"
+                              (dec_of_z rs') hl (List.length data) (List.length delivered)
+                              (match first_close sh.sh_acts rs' with Some k -> dec_of_z k | None -> "-")));
+             let (s, evs0) = open_ctx true sh.sh_acts sh.sh_thr true rs' (zi hl) (Some lat) O in
+             let ((_, evs), r) = write (fun _ -> (huge, huge)) s data in
+             let total = iz (delays_before_last_byte evs) in
+             let el = ios (tl1 (tl1 el)) in
+             if not (ok_total_delay evs (zi el)) then
+               raise (Fail ("halt_delay_total", Printf.sprintf "response took %dus, configured halts and latency add up to %dus" el total));
+             if emitted evs <> delivered then raise (Dis "delivered-bytes-differ-from-model");
+             VOk (List.exists is_action_ev (evs0 @ evs))
+           end
        | _ -> VOk false)
   | _ -> if List.mem "listen-failed" outs || List.mem "dial-failed" outs then VOk false else raise (Dis "integration-out-shape")
-
 
 (* ------------------------------ K ---------------------------------- *)
 
@@ -632,7 +647,7 @@ let judge_keepalive ins outs : verdict =
              if not (ok_close acts rs' (zi hl) data delivered short) then
                raise (Fail ("close_at_k", Printf.sprintf "response %d (mode %s): rs=%d hl=%d written=%d delivered=%d first_close=%s"
                               !nresp mode rs hl (List.length data) (List.length delivered)
-                              (match first_close acts rs' with Some k -> string_of_int (iz k) | None -> "-")));
+                              (match first_close acts rs' with Some k -> dec_of_z k | None -> "-")));
              let (s, evs0) = respond !prev true acts sh.sh_thr true rs' (zi hl) in
              let ((s', evs), r) = write (fun _ -> (huge, huge)) s data in
              let total = iz (delays_before_last_byte evs) in
